@@ -675,3 +675,8 @@ def run(ctx):
     # "... or with the error that reply carries": the exception a pending request is rejected with is built from the ERROR's URI, args, kwargs
     from .c18 import rule_from_error
     rule_from_error(ctx, "C04.7-error-reply-content")
+    # "every request message carries the caller's own URI, arguments, and options" -- also for the requests issued on behalf of a decorated object:
+    # each decorated method is requested with its own URI and options (cells shared with C11.7 / C10.5)
+    from .common import rule_decorated_object
+    rule_decorated_object(ctx, "C04.10-decorated-object-subscribe-requests", "subscribe", "_subscribe", "is_handler", True)
+    rule_decorated_object(ctx, "C04.10b-decorated-object-register-requests", "register", "_register", "is_endpoint", False)
